@@ -189,6 +189,19 @@ def p_place_sa_seeded_rng():
     return canon(sa.place(vr, nets, machine, cons, random=random.Random(5)))
 
 
+def p_place_rand_own_generator():
+    """the random placer given a generator of the caller's own, on a machine so full that most draws must be repeated: the
+    placement is a function of that generator alone"""
+    from rig.place_and_route import Machine, Cores
+    from rig.place_and_route.place import rand
+    vs = [V("r%d" % i, i) for i in range(9)]
+    vr = dict((v, {Cores: 1}) for v in vs)
+    out = []
+    for sd in (42, 7):
+        out.append(canon(rand.place(vr, [], Machine(3, 3, {Cores: 1}), [], random=random.Random(sd))))
+    return out
+
+
 def p_place_sa_global_seed():
     from rig.place_and_route.place import sa
     vs, vr, nets, machine, cons = graph(25, nv=4, nn=3, cores=3, same_chip=True)
